@@ -338,7 +338,7 @@ static void do_api(op_t op) {
             rc = m_mod_ps_subscribe(h, dup ? tcopy : PAT[p], fl, af ? heapup : (void *)&UPV[s][p][upver]);
             free(tcopy);
             if (rc && heapup && !same && lg_is_live(heapup)) { lg_free(heapup); heapup = NULL; }
-            if (!rc && legal) UPVH[s][p] = heapup;
+            if (!rc && legal) { if (UPVH[s][p] != heapup && UPVH[s][p]) UPVH_OLD[s][p][UPVH_OLDN[s][p]++ % 6] = UPVH[s][p]; UPVH[s][p] = heapup; }
             if (!legal) { REFUSED(rc, "subscribe", mflag(s, M_MOD_DENY_SUB) ? "PM.sub" : "ST.refuse|subscribe"); break; }
             if (tb_account(s, rc, &sn, "subscribe")) break;
             if (rc) vfail("SR.set", "SR.set|sub", "subscribe(%s) by %s returned %d (a repeated subscription is updated in place)", PAT[p], MD[s].name, rc);
